@@ -286,6 +286,8 @@ impl<'tcx> Cx<'tcx> {
                         let names: Vec<String> = def.non_enum_variant().fields.iter().map(|f| f.name.to_string()).collect();
                         let f = self.fields_json(l, env, Some(names));
                         let _ = write!(o, ",\"fields\":{}", f);
+                        let vis: Vec<String> = def.non_enum_variant().fields.iter().map(|f| if f.vis.is_public() { "\"pub\"".to_string() } else { "\"restricted\"".to_string() }).collect();
+                        let _ = write!(o, ",\"fvis\":[{}]", vis.join(","));
                     }
                 }
             }
